@@ -287,14 +287,21 @@ func (v DenseReal32Vector) Permute(pi []int) error {
   if len(pi) != len(v) {
     return fmt.Errorf("Permute(): permutation vector has invalid length!")
   }
-  // permute vector
   for i := 0; i < len(v); i++ {
     if pi[i] < 0 || pi[i] >= len(v) {
       return fmt.Errorf("Permute(): invalid permutation")
     }
-    if i != pi[i] && pi[i] > i {
-      // permute elements
-      v[pi[i]], v[i] = v[i], v[pi[i]]
+  }
+  // permute vector (element i of the result is element pi[i] of the
+  // receiver): follow every cycle of the permutation once
+  done := make([]bool, len(v))
+  for i := 0; i < len(v); i++ {
+    for j := i; !done[j]; j = pi[j] {
+      done[j] = true
+      if pi[j] != i {
+        // permute elements
+        v[pi[j]], v[j] = v[j], v[pi[j]]
+      }
     }
   }
   return nil
